@@ -108,6 +108,17 @@ Theorem upload_only_to_certified :
 Proof. exact upload_only_to_certified_full. Qed.
 Print Assumptions upload_only_to_certified.
 
+(* The [grid_managers] section of tahoe.cfg: a section with entries never comes out as "no grid
+   manager" (the empty key list, for which every server is permitted); one unusable entry refuses
+   the whole configuration; otherwise every configured key is in force. *)
+Theorem configured_grid_manager_never_ignored :
+  forall (pubkey : Type) (entries : list (option pubkey)),
+    (grid_manager_keys_from_config entries = Some [] -> entries = []) /\
+    (In None entries -> grid_manager_keys_from_config entries = None) /\
+    (forall keys, grid_manager_keys_from_config entries = Some keys -> entries = map Some keys).
+Proof. exact gm_config_never_fails_open_full. Qed.
+Print Assumptions configured_grid_manager_never_ignored.
+
 (* ---- published known answers (src/allmydata/test/test_client.py test_permute,
    test_permute_with_preferred): servers "0".."4" with seed = their name ---- *)
 Definition ex_srv (pref : list N) (i : N) : srv :=
